@@ -208,7 +208,7 @@ func planC09(w *World, spec RunSpec) {
 	} else if s.Bool("family-od") {
 		w.Scenario = GenOD(w, ODProfile{MaxEdits: 6, Pause: true, Limits: true, NeverReady: s.Bool("never-ready"), Delegation: s.Bool("delegation")})
 	} else {
-		w.Scenario = GenOS(w, OSProfile{MaxSets: 3, Delegation: true, Lifecycle: true, LateCreate: true, Intruder: "granular", NoForge: true, Preexisting: 2})
+		w.Scenario = GenOS(w, OSProfile{MaxSets: 3, Delegation: true, Lifecycle: true, LateCreate: true, Intruder: "granular", NoForge: true, Preexisting: 2, RecreateOrphaned: true})
 		ensurePauseOp(w)
 	}
 	w.StartProcesses()
